@@ -20,7 +20,7 @@ def builds_needed(tier):
 
 
 def bounds(tier):
-    return {"builds": BUILDS + ["portable ChaCha engine (hook) inside each"], "sha256_blocks_per_call": "1..=20" if tier == "thorough" else [1, 3, 4, 5, 8, 9, 12, 20],
+    return {"builds": BUILDS + ["portable ChaCha engine (hook) inside each"], "sha256_blocks_per_call": "1..=40 at every offset" if tier == "thorough" else "1,3,4,5,8,9,12,20 at six offsets; every other count of 1..=33 at three offsets",
             "offsets": "0..=31" if tier == "thorough" else [0, 1, 4, 8, 16, 31]}
 
 
@@ -34,7 +34,7 @@ def offsets(tier):
 
 
 def ks(tier):
-    return range(1, 21) if tier == "thorough" else (1, 3, 4, 5, 8, 9, 12, 20)
+    return range(1, 41) if tier == "thorough" else (1, 3, 4, 5, 8, 9, 12, 20)
 
 
 def shards(tier):
@@ -47,7 +47,7 @@ def shards(tier):
             sh.append(("shard_blake2", (b, which)))
         sh.append(("shard_spots", b))
         sh.append(("shard_counters", b))
-    foreign = multi.foreign_jobs(["c03"], tier, BUILDS) + multi.foreign_jobs(["c01"], "quick", BUILDS)
+    foreign = multi.foreign_jobs(["c03"], tier, BUILDS) + multi.foreign_jobs(["c01"], "quick", BUILDS, select=lambda mn, f, a: f != "shard_huge")
     sh += [("shard_foreign", j) for j in foreign]
     return sh
 
@@ -73,6 +73,14 @@ def shard_sha(arg, tier):
                 body = pat(kp, 100, n)
                 d = obs_of(hashes.digest(variant, prefix + body))
                 for off in offsets(tier):
+                    cases.append((["hnew s0 %s" % variant, "update s0 %s" % (P(kp, 0, pre) if pre else "h:"), "update_mut s0 @%d:%s" % (off, P(kp, 100, n)), "fin s0"],
+                                  ["-", "-", "-", d], None))
+        if tier != "thorough" and kp == 5:
+            # the remaining block counts of 1..=20 (and 21..=33: three 8-way batches plus every tail) at three alignments
+            for k in [k for k in range(1, 34) if k not in ks(tier)]:
+                n = 64 * k + (k % 2)
+                d = obs_of(hashes.digest(variant, prefix + pat(kp, 100, n)))
+                for off in (0, 1, 31):
                     cases.append((["hnew s0 %s" % variant, "update s0 %s" % (P(kp, 0, pre) if pre else "h:"), "update_mut s0 @%d:%s" % (off, P(kp, 100, n)), "fin s0"],
                                   ["-", "-", "-", d], None))
         # two consecutive multi-block updates (chaining state produced by the vector path feeds the vector path)
